@@ -66,6 +66,13 @@ def confirm(C, ql, declare_id=False):
         m = re.search(r'error(\[E\d+\])?: [^\n]*(\n[^\n]*){0,6}', err)
         return False, f'generated code for `f: {expr}` does not compile: ' + (m.group(0)[:500] if m else err[-500:]).replace('\n', ' | ')
     payloads = [{'f': id_payload(ql, True)}, {'f': id_payload(ql, False)}]
+    # integer boundary values (the canonical form is the decimal string)
+    for n in (0, -3, 2147483648, -9223372036854775808, 9223372036854775807):
+        v = n
+        for q in reversed(ql):
+            if q == 'L':
+                v = [v]
+        payloads.append({'f': v})
     nullable = not ql or ql[0] != 'R'
     if nullable:
         payloads += [{'f': None}, {}]
